@@ -303,7 +303,14 @@ func ApplyStep(w *World, lg zerolog.Logger, m RefLogger, s Step) (zerolog.Logger
 			hs = append(hs, addHook{id, w.Log})
 			m.Hooks = append(m.Hooks, RefHook{Kind: "add", ID: id})
 		}
+		// the list is built with spare capacity and is the caller's: after the call the caller reuses it
+		// (overwrites its elements, appends to it) - the logger must have taken its own copy
+		hs = append(make([]zerolog.Hook, 0, len(hs)+2), hs...)
 		lg = lg.Hook(hs...)
+		for i := range hs {
+			hs[i] = addHook{900 + i, w.Log}
+		}
+		_ = append(hs, addHook{950, w.Log})
 	case "HookChain":
 		lg = lg.Hook(chainHook{s.Fields})
 		m.Hooks = append(m.Hooks, RefHook{Kind: "chain", Fields: s.Fields})
